@@ -823,6 +823,19 @@ def check_config(ctx, cfg, rule, res, tag):
     if not np.all(np.isfinite(y)):
         ctx.skip("primal solution not finite (outside the property)")
         return
+    # outputs that are *exactly* zero (identically vanishing residual of a state component: whitened residual, scale and
+    # standard deviation are 0 for every parameter value): their derivatives must be finite in both modes - checked before
+    # the rounding-level skips below, which concern outputs that are zero only up to rounding
+    if "jacfwd" in res and "jacrev" in res and np.any(y == 0.0):
+        zrows = np.where(y == 0.0)[0]
+        for mode in ("jacfwd", "jacrev"):
+            # a NaN row of an exactly-zero output, or (reverse mode) NaN spilling into all other outputs
+            J = np.asarray(res[mode])
+            if not np.all(np.isfinite(J[zrows])) or (not np.all(np.isfinite(J)) and np.all(np.isfinite(np.asarray(res["jacfwd" if mode == "jacrev" else "jacrev"])))):
+                if cfg["solver"] == "mle":
+                    ctx.violation(f"grad:nonfinite:exactly-zero-output:{cfg['fact']}:{cfg['solver']}",
+                                  f"{mode}: derivative entries of an output that is exactly 0 (identically vanishing residual) are not finite", dict(case, mode=mode))
+                    return
     if cfg["solver"] in ("mle", "dynamic"):
         i0 = 0
         for name, size in segments:
@@ -1068,6 +1081,12 @@ def corpus():
     aff = L.ParamField(1, 2, [[(Fraction(1), (1,), (1, 0)), (Fraction(1), (0,), (0, 1))]], "affine")
     out.append(("corpus:affine-run", base_cfg(aff, fact="iso", solver="solver", strategy="filter", lin="ts1", init="inexact", q=2, grid=[0.0, 0.25, 0.375],
                                              theta=[-1.5, 0.5], u0=[0.75], scale=[1.5], damp=0.125)))
+    # a state component whose ODE residual vanishes identically (a constant carried in the state): its whitened residual,
+    # its MLE scale and its standard deviations are exactly 0 for every parameter value; norm / hypot at the origin
+    # must not turn that into NaN derivatives (repository fix a307d9d)
+    const = L.ParamField(2, 1, [[(Fraction(1), (1, 1), (1,))], [(Fraction(0), (0, 1), (0,))]], "augmented-constant")
+    out.append(("corpus:mle-zero-residual:bd", base_cfg(const, fact="bd", solver="mle", strategy="filter", lin="ts0", init="exact", q=2, grid=[0.0, 0.25, 0.5, 0.75, 1.0],
+                                                       theta=[0.5], u0=[1.0, 0.75])))
     out.append(("corpus:std-nan:bd", base_cfg(lg, fact="bd", solver="solver", strategy="filter", lin="ts1", init="exact", q=1, grid=[0.0, 0.25, 0.5])))
     return out
 
@@ -1170,6 +1189,23 @@ def check_adaptive_stopped_dt(ctx, it):
         s = ivpsolve.solve_fixed_grid(solver=sol)(prior, grid=jnp.asarray(ts), damp=0.0)
         return s.u.mean[0][-1].reshape(-1), s.u.std[0][-1].reshape(-1)
 
+    def bounded_while_loop(cond_fun, body_fun, init, *, max_steps=48):
+        """a reverse-differentiable while-loop (scan that stops updating once the condition is false), as a user would pass"""
+
+        def step(carry, _):
+            return jax.lax.cond(cond_fun(carry), body_fun, lambda c: c, carry), None
+
+        final, _ = jax.lax.scan(step, init, xs=None, length=max_steps)
+        return final
+
+    def f_adaptive_rev(th):
+        prior, sol, err = make(th)
+        if clip:
+            s = ivpsolve.solve_adaptive_terminal_values(sol, err, clip_dt=True, while_loop=bounded_while_loop)(prior, t0=jnp.asarray(0.0), t1=jnp.asarray(t1), atol=tol, rtol=tol, dt0=0.1)
+            return jnp.concatenate([s.u.mean[0].reshape(-1), s.u.std[0].reshape(-1)])
+        s = ivpsolve.solve_adaptive_save_at(solver=sol, error=err, clip_dt=False, while_loop=bounded_while_loop)(prior, save_at=jnp.asarray([0.0, float(ts[-1])]), atol=tol, rtol=tol, dt0=0.1)
+        return jnp.concatenate([s.u.mean[0][-1].reshape(-1), s.u.std[0][-1].reshape(-1)])
+
     (ma, sa), (dma, dsa) = jax.jvp(f_adaptive, (jnp.asarray(th0),), (jnp.asarray(1.0),))
     (mf, sf), (dmf, dsf) = jax.jvp(f_fixed, (jnp.asarray(th0),), (jnp.asarray(1.0),))
     ctx.evaluations += 1
@@ -1183,6 +1219,19 @@ def check_adaptive_stopped_dt(ctx, it):
     if vals > 1e-9:
         ctx.skip(f"adaptive stop-gradient case: fixed-grid replay of the realised grid deviates by {vals:.1e} (C05/C06 territory)")
         return
+    if it < 2 and len(ts) - 1 <= 40:
+        # reverse mode through the adaptive loops needs a differentiable loop supplied by the user: every entry point must
+        # hand it to the loops, and the reverse-mode derivative must agree with the forward-mode one (seeded change C16-s6)
+        try:
+            g = np.asarray(jax.jacrev(f_adaptive_rev)(jnp.asarray(th0)), dtype=np.float64).reshape(-1)
+            ref = np.concatenate([np.asarray(dma, dtype=np.float64).reshape(-1), np.asarray(dsa, dtype=np.float64).reshape(-1)])
+            devr = float(np.max(np.abs(g - ref) / (np.abs(ref) + 1e-6 * (1 + np.max(np.abs(ref))))))
+            ctx.dev("adaptive.reverse-vs-forward", devr, 1e-6, case=dict(case, while_loop="scan-based bounded loop"), sig="adaptive:reverse-vs-forward",
+                    what=f"reverse-mode derivative of the adaptive solve (user-supplied differentiable loop) differs from the forward-mode derivative by {devr:.2e}")
+        except Exception as e:  # noqa: BLE001
+            ctx.violation("adaptive:reverse-mode:exception", f"reverse-mode differentiation of the adaptive solve with a user-supplied differentiable while_loop raised {type(e).__name__}: {str(e)[:200]}",
+                          dict(case, while_loop="scan-based bounded loop"))
+        ctx.count("adaptive reverse mode (bounded loop)")
     for name, a, b in (("mean", dma, dmf), ("std", dsa, dsf)):
         a, b = np.asarray(a, dtype=np.float64), np.asarray(b, dtype=np.float64)
         if not (np.all(np.isfinite(a)) and np.all(np.isfinite(b))):
@@ -1191,6 +1240,56 @@ def check_adaptive_stopped_dt(ctx, it):
         dev = float(np.max(np.abs(a - b) / (np.abs(b) + 1e-6 * (1 + np.max(np.abs(b))))))
         ctx.dev(f"adaptive.stopped-dt.{name}", dev, 1e-6, case=case, sig=f"adaptive:stopped-dt:{name}",
                 what=f"forward-mode derivative of the adaptive solve ({name}) differs from the derivative on the realised grid by {dev:.2e}: the step sizes are not treated as constants")
+
+
+def check_map_taylor_point(ctx, it):
+    """Iterated (maximum-a-posteriori) linearisation, dense model: the Taylor point is a function of the parameters (a
+    Gauss-Newton fixed point); forward-mode derivatives of means and standard deviations equal the directional derivatives
+    of the computed quantities (central differences, Richardson).  Reverse mode needs a user-supplied differentiable loop
+    and is outside this sub-check."""
+    import jax
+    import jax.numpy as jnp
+    from probdiffeq import ivpsolve
+    from probdiffeq import probdiffeq as pdq
+    from probdiffeq._probdiffeq import taylor_points
+
+    rng = ctx.rng
+    q = int(rng.integers(2, 4))
+    grid = jnp.asarray([0.0, 0.125, 0.375, 0.5, 0.75][: int(rng.integers(3, 6))])
+    th0 = np.array([float(gen.pick(rng, [0.75, 1.0, 1.5])), float(gen.pick(rng, [0.5, 0.25]))])
+    init = gen.pick(rng, ["exact", "inexact"])
+    case = {"fact": "dense", "lin": "ts1 + taylor_point_maximum_a_posteriori", "q": q, "grid": np.asarray(grid).tolist(), "theta": th0.tolist(), "init": init,
+            "field": "u' = th0 u (1 - u) + th1 u^2 v, v' = -v + u", "u0": [0.25, 0.5]}
+
+    def F(th):
+        ssm = pdq.state_space_model_dense()
+        vf = pdq.ode(lambda u, /, *, t: jnp.stack([th[0] * u[0] * (1 - u[0]) + th[1] * u[0] ** 2 * u[1], -u[1] + u[0]]), jacobian=pdq.jacobian_materialize())
+        tcoeffs, _ = pdq.jetexpand_ode_padded_scan(num=q)(vf, (jnp.asarray([0.25, 0.5]),), t=0.0)
+        prior = ssm.prior_wiener_integrated(tcoeffs) if init == "exact" else ssm.prior_wiener_integrated(tcoeffs, is_exact=False, inexact_eps=2.0**-5)
+        tp = pdq.taylor_point_maximum_a_posteriori(nlstsq=taylor_points.lstsq_constrained_gauss_newton(maxiter=30, tol=1e-13))
+        con = ssm.constraint_ode_ts1(vf, taylor_point=tp)
+        sol = pdq.solver(strategy=pdq.strategy_filter(), constraint=con)
+        s = ivpsolve.solve_fixed_grid(solver=sol)(prior, grid=grid, damp=2.0**-6)
+        return jnp.concatenate([s.u.mean[0][-1].reshape(-1), s.u.mean[1][-1].reshape(-1), s.u.std[0][-1].reshape(-1)])
+
+    Fj = jax.jit(F)
+    J = np.asarray(jax.jit(jax.jacfwd(F))(jnp.asarray(th0)))
+    y = np.asarray(Fj(jnp.asarray(th0)))
+    ctx.evaluations += 1
+    ctx.case(dict(case, mode="map-taylor-point"))
+    ctx.count("MAP taylor point (dense, forward mode vs differences)")
+    if not (np.all(np.isfinite(y)) and np.all(np.isfinite(J))):
+        ctx.violation("map-taylor-point:nonfinite", "solution or forward-mode derivative with a MAP Taylor point is not finite", case)
+        return
+    Jd, err = L.richardson_jacobian(lambda x: np.asarray(Fj(jnp.asarray(x))), th0, np.maximum(np.abs(th0), 2.0**-4))
+    sc = np.abs(Jd) + 1e-3 * np.max(np.abs(Jd), axis=1, keepdims=True) + 1e-5 * np.abs(y)[:, None] + 1e-300
+    ok = err <= 0.01 * 1e-5 * sc
+    if not np.any(ok):
+        ctx.skip("MAP taylor point: finite differences not converged")
+        return
+    dev = float(np.max(np.where(ok, np.abs(J - Jd) / sc, 0.0)))
+    ctx.dev("map-taylor-point.fwd-vs-fd", dev, 1e-5, case=case, sig="map-taylor-point:forward-vs-differences",
+            what=f"forward-mode derivative with a MAP Taylor point differs from the directional derivative of the computed solution by {dev:.2e}")
 
 
 def run(ctx):
@@ -1265,3 +1364,7 @@ def run(ctx):
     for it in range(ctx.n(2, 12)):
         guarded(ctx, "adaptive:stopped-dt", check_adaptive_stopped_dt, ctx, it)
     tm["adaptive stop-gradient"] = round(time.time() - ta, 1)
+    ta = time.time()
+    for it in range(ctx.n(1, 6)):
+        guarded(ctx, "map-taylor-point", check_map_taylor_point, ctx, it)
+    tm["MAP taylor point"] = round(time.time() - ta, 1)
